@@ -279,23 +279,33 @@ def run(chk):
         return True, "", [fn.span, rd.span]
     chk.ob("C11.R5:name-writer-reader", "the name writer puts the period where the reader looks for it; new files are named from the current reading", r5)
 
-    def membership():
+    def _listing_decision():
         rd = P.body("emit_file::ActiveFileSet::<'a>::read")
-        sw = [c for c in rd.calls(normal_only=True) if c.callee.get("name") == "starts_with"]
-        ew = [c for c in rd.calls(normal_only=True) if c.callee.get("name") == "ends_with"]
-        if len(sw) != 1 or len(ew) != 1:
-            return False, "the listing is not filtered by prefix and extension", [], rd.span
-        if not common.has_root(rd.origin(sw[0].args[1]), "param", 3) or not common.has_root(rd.origin(ew[0].args[1]), "param", 4):
-            return False, "the listing is filtered by (%s, %s), not (file_prefix, file_ext)" % (o_str(rd.origin(sw[0].args[1])), o_str(rd.origin(ew[0].args[1]))), [], sw[0].loc
-        pu = [c for c in rd.calls(normal_only=True) if c.callee.get("name") == "push" and "Vec" in (c.callee.get("full") or "")]
+        pu = [c for c in rd.calls(normal_only=True) if c.callee.get("name") == "push" and "Vec" in (c.callee.get("full") or "") and rd.in_cycle(c.bb)]
         if len(pu) != 1:
-            return False, "expected one push into the listing", [], rd.span
-        g = [(rd.switch_origin(gbb), list(vals)) for gbb, vals, n in rd.guards_of(pu[0].bb)]
-        ok_s = any(so[0] == "call" and so[1].bb == sw[0].bb and vals != ["0"] for so, vals in g)
-        ok_e = any(so[0] == "call" and so[1].bb == ew[0].bb and vals != ["0"] for so, vals in g)
-        if not (ok_s and ok_e):
-            return False, "a directory entry enters the listing without matching both the prefix and the extension", [], pu[0].loc
-        return True, "", [sw[0].loc, ew[0].loc]
+            raise mir.AnchorMissing("one push of a directory entry into the listing (found %d)" % len(pu))
+        origins = [rd.switch_origin(gbb) for gbb, vals, n in rd.guards_of(pu[0].bb) if rd.in_cycle(gbb)]
+        return rd, pu[0], common.decision_region(P, rd, origins, crate="emit_file")
+
+    def membership():
+        """Both the configured prefix and the configured extension take part in the decision that lets a directory entry into the listing:
+        the prefix in a prefix-side test (starts_with / strip_prefix), the extension in a suffix-side test (ends_with / strip_suffix) -
+        written in `read` itself, in closures, or in a predicate function it calls with them; directly or through a formatted copy."""
+        rd, pu, region = _listing_decision()
+        PRE, SUF = ("starts_with", "strip_prefix"), ("ends_with", "strip_suffix")
+        found = {"prefix": [], "ext": []}
+        for x, c, via in region:
+            nm = c.callee.get("name")
+            if nm in PRE + SUF and len(c.args) > 1:
+                ps = common.entry_params(P, rd, x, x.origin(c.args[1]), via)
+                if 3 in ps and nm in PRE:
+                    found["prefix"].append(c)
+                if 4 in ps and nm in SUF:
+                    found["ext"].append(c)
+        if not found["prefix"] or not found["ext"]:
+            return False, ("a directory entry enters the listing without matching %s" %
+                           " and ".join(w for w, k in (("the configured prefix", "prefix"), ("the configured extension", "ext")) if not found[k])), [], pu.loc
+        return True, "", [found["prefix"][0].loc, found["ext"][0].loc]
     chk.ob("C11.R3:listing-filter", "only entries matching both the configured prefix and extension enter the listing (necessary part of staying inside the set)", membership)
 
 
@@ -505,6 +515,39 @@ def run(chk):
                            "retention deletes nothing and nothing is reused, whatever else shares the directory"), [], nx[0].loc
         return True, "", [nx[0].loc, so[0].loc]
     chk.ob("C11.R3:listing-total", "no directory entry can make the listing fail: foreign entries are skipped", listing_total)
+
+    def own_files_only():
+        """A directory entry joins the set only if it is *delimited* like one of the set's own names (`prefix` `.` ... `.` `ext`): the
+        membership decision in ActiveFileSet::read involves the `.` separator next to the prefix / extension.  A bare
+        starts_with(prefix) && ends_with(ext) also matches `prefix-notes.ext` and the files of a set called `prefix2`, which retention then
+        deletes and reuse appends to."""
+        rd, pu, region = _listing_decision()
+        TESTS = ("starts_with", "ends_with", "strip_prefix", "strip_suffix", "split", "rsplit", "split_once", "rsplit_once", "eq", "ne", "find",
+                 "rfind", "splitn", "rsplitn", "matches")
+        tests = [(x, c) for x, c, via in region if c.callee.get("name") in TESTS]
+        if not tests:
+            return False, "no membership test guards the listing of a directory entry", [], pu.loc
+
+        def is_sep(v):
+            if v == 46 or v == ".":
+                return True
+            if isinstance(v, bytes):
+                v = v.decode("latin1")
+            # a short literal, or a format template (literal pieces of a format string), containing the separator
+            return isinstance(v, str) and "." in v and len(v) <= 8
+        seps = []
+        for x, c in tests:
+            for a in c.args:
+                if any(l[0] == "const" and is_sep(l[1]) for l in common.deep_roots(P, x, x.origin(a))):
+                    seps.append((x, c))
+                    break
+        if not seps:
+            return False, ("a directory entry joins the set on %s alone - no test involves the `.` that separates the prefix and the extension from "
+                           "the rest of the name: `prefix-notes.ext`, or the files of a sibling set `prefix2`, are listed as this set's own, so "
+                           "retention deletes them and reuse appends to them" % sorted({c.callee.get("name") for x, c in tests})), \
+                [c.loc for x, c in tests], tests[0][1].loc
+        return True, "", ["%s %s" % (c.loc, c.callee.get("name")) for x, c in seps]
+    chk.ob("C11.R10:own-files-only", "membership in the file set is decided on `.`-delimited name components, not on a bare prefix/suffix match", own_files_only)
 
     def stem_and_extension():
         dp = P.body("emit_file::dir_prefix_ext")
